@@ -71,6 +71,25 @@ fn run(input: RunInput) -> ScenFuture {
         cfg_c.max_frame_size = lc;
         let mut cfg_s = base_config(30_000, Some(5_000));
         cfg_s.max_frame_size = ls;
+        // settings of other features that must not move the limits: flow-control windows smaller than
+        // the messages (a window is not a size limit: the transfer just takes more round trips),
+        // and - over a slow link - a serving-side request deadline shorter than the time a large
+        // request needs to arrive (the deadline is for the handler, which answers at once)
+        if !class8m && w.flag("unrelated_settings", 0.4) {
+            let mut wr = w.rng("cfg:windows");
+            for cfg in [&mut cfg_c, &mut cfg_s] {
+                let q = cfg.quic.as_mut().unwrap();
+                if wr.gen_bool(0.5) { q.stream_receive_window = Some(wr.gen_range(4_096..65_536)); }
+                if wr.gen_bool(0.3) { q.receive_window = Some(wr.gen_range(8_192..131_072)); }
+                if wr.gen_bool(0.3) { q.send_window = Some(wr.gen_range(8_192..131_072)); }
+            }
+            if w.flag("short_serving_deadline_on_a_slow_link", 0.5) {
+                cfg_s.inbound_request_timeout_ms = Some(w.param("inbound_request_timeout_ms", 5, 120) as u64);
+                let lat = w.param("slow_link_latency_us", 2_000, 25_000) as u64;
+                w.fabric.set_default_link(LinkCfg::constant(lat));
+            }
+            w.probe("unrelated-settings");
+        }
         let seed = w.seed;
         let plan: PlanFn = Arc::new(move |req: &Request<Bytes>| {
             let (n, b, h) = parse_route(req.route());
